@@ -83,3 +83,20 @@ Definition chain_spec (mws : list (str -> str -> option str -> bool * option str
 Theorem chain_process_tie : forall mws url ip fp, gen_chain_process mws url ip fp = chain_spec mws url ip fp.
 Proof. exact Equiv_proofs.chain_process_tie. Qed.
 Print Assumptions chain_process_tie.
+
+(* what the redirect walk reads from a response: is_redirect (protocol/status.py), GeminiResponse.is_redirect and
+   GeminiResponse.redirect_url (protocol/response.py).  The translation of _get_with_redirects reads `response.redirect_url`
+   as the response's meta (table of translate/py2coq.py): under the guard is_redirect(response.status) that IS what the
+   property returns - the whole meta, nothing cut off. *)
+Theorem status_is_redirect_tie : forall z, gen_status_is_redirect z = Redirect.is_redirect z.
+Proof. exact Equiv_proofs.status_is_redirect_tie. Qed.
+Print Assumptions status_is_redirect_tie.
+
+Theorem response_is_redirect_tie : forall z, gen_response_is_redirect z = Redirect.is_redirect z.
+Proof. exact Equiv_proofs.response_is_redirect_tie. Qed.
+Print Assumptions response_is_redirect_tie.
+
+Theorem response_redirect_url_tie : forall z meta,
+  gen_response_redirect_url z meta = if Redirect.is_redirect z then Some meta else None.
+Proof. exact Equiv_proofs.response_redirect_url_tie. Qed.
+Print Assumptions response_redirect_url_tie.
